@@ -24,12 +24,18 @@ EXPLANATION = ("PROVED (z3, all coordinates / strings): each of the ten shipped 
                "and 3 of arbitrary features with the real default criteria and with arbitrary criteria outcomes: per path the outputs "
                "partition the inputs (accepted => one fresh object spanning min start .. max end whose children are the members, id "
                "'<featuretype>_<counter+1>', no column or attribute of an input written, no SQL issued; rejected => the inputs themselves with "
-               "children == ()), objects that already went through merge() included; children_bp; merge_all per path.  BOUNDED (not "
-               "counted as proved): the global law for longer inputs (maximal runs, interval union, every criterion, re-merging) by "
+               "children == ()), objects that already went through merge() included; children_bp; merge_all per path.  INPUTS OF EVERY LENGTH (fold rule, "
+               "C16.fold.*): the loop body of merge() executed once from an arbitrary loop state satisfying the invariant (four shapes, the "
+               "accumulator over c0, k >= 0 generic members, c1) for an arbitrary next feature of a start-ordered input, default and arbitrary "
+               "criteria: joins iff the criteria accept (accumulator, feature, members); join = append + extent min/max + id kept or issued; "
+               "rejection = _finalize_merge(accumulator, exactly the members) yielded and the feature pending; invariant re-established; the "
+               "code after the loop yields the last run; arithmetic lemmas over the step contract: a run is one block of overlapping or adjacent "
+               "intervals, runs are maximal, acceptance is start <= max end + 1 (interval union for the default criteria).  BOUNDED (not "
+               "counted as proved): whole-input laws for the other shipped criteria / thresholds, re-merging, merge_all on stored features, by "
                "exhaustive enumeration of small interval multisets through the real merge().")
-TRUSTED = ["T1"]
-ASSUMPTIONS = ["seqids contain no comma (merge() joins seqids with ',')", "children()/all_features() contracts (C02/C11)"]
-PRECONDITIONS = ["features carry integer coordinates with start <= end (a zero-length feature, end == start-1, is falsy and would be dropped by `if current_merged:`)"]
+TRUSTED = ["T1 incl. the fold rule for the loop of merge() (invariant in props/C16_fold.py)"]
+ASSUMPTIONS = ["the induction from the per-step contract to whole inputs is the fold rule itself (not re-proved by a solver)", "seqids contain no comma (merge() joins seqids with ',')", "children()/all_features() contracts (C02/C11)"]
+PRECONDITIONS = ["input is start-ordered (the statement's precondition; clauses about the extent assume it)", "features carry integer coordinates with start <= end (a zero-length feature, end == start-1, is falsy and would be dropped by `if current_merged:`)"]
 FUNCTIONS = ["gffutils.merge_criteria:*", "gffutils.interface:_finalize_merge", "gffutils.interface:FeatureDB.merge", "gffutils.interface:FeatureDB.children_bp",
              "gffutils.interface:FeatureDB.merge_all", "gffutils.interface:assign_child", "gffutils.feature:Feature.__len__"]
 
@@ -152,6 +158,8 @@ def _merge_run(it, n, criteria, premerged):
         feats = [sfeat("f%d" % i, with_children=premerged) for i in range(n)]
         for f in feats:
             ctx.assume(f.start.e <= f.end.e)
+        for a, b in zip(feats, feats[1:]):
+            ctx.assume(a.start.e <= b.start.e)       # start-ordered input (the statement's precondition)
         db = blank_db()
         db._autoincrements = IM.SymMap("cnt")
         it.contracts[B.bins] = bins_contract
@@ -425,6 +433,8 @@ def unit_bounded_identical_lines(U):
     U.bounded_result("C16.bounded.identical_lines", "children_bp and merge_all treat character-identical stored features as separate members", "3 interval multisets with repeated intervals", cases, fails)
 
 UNITS = [("bounded.identical_lines", unit_bounded_identical_lines), ("criteria", unit_criteria), ("finalize", unit_finalize), ("merge_body", unit_merge_body), ("children_bp", unit_children_bp), ("merge_all", unit_merge_all)]
+from props import C16_fold as _FOLD
+UNITS = UNITS + list(_FOLD.UNITS)
 try:
     from standins import C16 as _S
     UNITS = UNITS + list(_S.UNITS)
